@@ -549,6 +549,8 @@ Definition m_call (c : call) : option res :=
   | FMapcar => Some (m_mapcar c)
   | FReduce => Some (m_reduce c)
   | FConcatenate => Some (m_concatenate c)
+  | FFindIfNot | FPositionIfNot | FCountIfNot | FRemoveIfNot | FDeleteIfNot | FSubstituteIfNot | FNsubstituteIfNot =>
+      Some (RErr EUndefined)                       (* no such function in pkg/cl *)
   | f =>
       match parse_sfv c with
       | None => Some (RErr EType)
